@@ -572,6 +572,7 @@ def compile_assign(
     if (
         result.temp_variables
         and isinstance(target, Symbol)
+        and ann is None
         and not _mentions_name(compiler, result, compiler._nonconst(target))
     ):
         result.rename(compiler, compiler._nonconst(target))
